@@ -35,6 +35,9 @@ def cases(ctx):
         yield {"op": "ternary", "c": p, "src": "G2"}
     from .. import gen
 
+    for i, p in enumerate(ctx.family("G1")):
+        if not C01.no_x(p) and i % (4 if ctx.quick else 1) == 0:
+            yield {"op": "ternary", "c": p, "src": "G1x", "xconst": True}
     for j in range(80 if ctx.quick else 1500):
         r = ctx.rng("C10g3", j)
         c = gen.rand_circuit(r, n_in=r.randint(1, 5), n_gates=r.randint(2, 10), max_fanin=4, consts=0.5, out_is_input=0.2)
@@ -60,6 +63,9 @@ def run_case(case, ctx):
         t, mp = cg.tx.ternary(c)
     except Exception as e:
         exc = type(e).__name__
+    if case.get("xconst") and exc == "ValueError":
+        ctx.count("x_constant_rejected_loudly")       # outside the domain: a loud rejection is never a violation
+        return []
     p = case["c"]
     return {"kind": "ternary", "c": p, "t": proj(t) if t is not None else {}, "map": [[n, mp[n]] for n in p["names"] if n in mp],
             "exc": exc, "nontrivial": any(len(f) > 1 for f in p["fi"])}
